@@ -18,6 +18,12 @@ CHECKS = {
    text="Product of 20 termination paths x 10 nesting contexts x 15 trap histories x 3 front-ends (file, -c, stdin): each execution of brush is checked for exactly-once / last / status-reporting EXIT handler, absence after exec, trap.enter(EXIT) events from the verif-hooks log (once, never nested), and against bash's trace; plus $?-preservation cases for ERR/EXIT/DEBUG handlers.",
    note="bash 5.2.15 reference for traces; nounset/:? statuses compared as zero/non-zero; EXIT traps of ( ) subshells and asynchronous signal traps are outside the statement; open finding C16-F1 (handler's own exit status) cannot be repaired without editing a known-failure test", ref="5 C16"),
 }
+CHECKS["C19"] = dict(technique="in-process invariant monitor (span algebra) on the real highlight_command, exhaustive small alphabet + corpus, hang watchdog on logical progress",
+   text="Every line over a 21-symbol shell alphabet up to length 4 (quick) / 5 (thorough) with every char-boundary cursor, a sharded sample of the next length, and grammar-generated / mutated / deeply nested lines with all prefixes are highlighted by the real library; spans must be ordered, contiguous, on char boundaries, cover the line and render back to it. Complete for the enumerated space; sampling beyond.",
+   note="PATH emptied so command classification does no file-system walk; reedline rendering itself is not driven", ref="5 C19", engine="harness")
+CHECKS["C20"] = dict(technique="in-process reference-model monitor: every op sequence replayed through the real history API vs an executable file model, checked after every step; process-level multi-session runs",
+   text="All operation sequences up to length 6 (quick) / 7 (thorough) over 9 history operations plus random longer ones run through Shell::add_to_history / save_history / History::import / remove / clear with fresh Shells as new sessions; file and session list compared with an executable model after each step, plus exactly-once / order / timestamp-attachment invariants; `brush -o history` sessions on stdin at the process boundary.",
+   note="timestamp values normalised; #-leading commands excluded from exactly-once as the statement says; model is ~40 lines and is itself the trusted base", ref="5 C20", engine="harness")
 NA = {}
 
 def main():
